@@ -413,6 +413,15 @@ func c16(args []string) {
 				ignoredByAnnotation := strings.Contains(f.Doc, "swagger:ignore")
 				if (len(extraKeys) > 0 && !ignoredByAnnotation) || len(missing) > 0 {
 					cause := c16Cause(f.Class)
+					if f.Decl != nil && len(missing) == 0 && len(extraKeys) > 0 {
+						dropped, all := f.Decl.droppedKeys(), true
+						for _, k := range extraKeys {
+							all = all && dropped[k]
+						}
+						if all {
+							cause = "promoted-field-dropped-when-its-go-name-is-redeclared-with-json-dash"
+						}
+					}
 					if f.Decl != nil && len(extraKeys) == 0 {
 						ties, all := f.Decl.tieNames(), true
 						for _, k := range missing {
@@ -499,6 +508,9 @@ func c16(args []string) {
 			cause := c16Cause(info["class"].(string))
 			if cause == info["class"].(string) {
 				cause += ":" + info["alternative"].(string)
+			}
+			if fd := feats[info["idx"].(int)].Decl; fd != nil && fd.droppedKeys()[info["key"].(string)] {
+				cause = "promoted-field-dropped-when-its-go-name-is-redeclared-with-json-dash"
 			}
 			addV("c16/definition-accepts-undecodable["+cause+"]", "the scanned definition accepts a document that encoding/json cannot decode into the type", info, res.Err)
 		}
